@@ -883,3 +883,53 @@ def colliding_paths():
            ("quiesce",), ("eof", 0), ("eof", 1), ("quiesce",)]
     out.append(Scenario(st, name="colliding-paths-full-neighbourhood"))
     return out
+
+
+def idless_refusals():
+    """requests without an id that must be refused (change / remove by a non-owner, change of a method, add of a taken path):
+    nobody is told, and nothing may happen either"""
+    out = []
+    for tr in ("raw", "ws"):
+        st = [("connect", 0, "raw", "local6"), ("connect", 1, tr, "remote6"), ("connect", 2, "raw", "remote6"),
+              ("msg", 2, obj(method="fetch", params=obj(id="all"), id=1)),
+              ("msg", 0, obj(method="add", params=obj(path="s", value=1), id=1)),
+              ("msg", 0, obj(method="add", params=obj(path="m"), id=2)),
+              ("msg", 1, obj(method="change", params=obj(path="s", value="stolen"))),
+              ("msg", 1, obj(("method", "change"), ("params", obj(path="s", value="stolen2")), ("id", True))),
+              ("msg", 0, obj(method="change", params=obj(path="m", value="now a state"))),
+              ("msg", 1, obj(method="remove", params=obj(path="s"))),
+              ("msg", 1, obj(method="add", params=obj(path="s", value="second"))),
+              ("msg", 1, [obj(method="change", params=obj(path="s", value=5)), obj(method="remove", params=obj(path="m"))]),
+              ("quiesce",),
+              ("msg", 2, obj(method="get", params=obj(), id=2)),
+              ("msg", 1, obj(method="set", params=obj(path="m", value=1), id="r1")),
+              ("msg", 0, obj(method="change", params=obj(path="s", value=2), id=3)),
+              ("quiesce",), ("eof", 1), ("eof", 0), ("eof", 2), ("quiesce",)]
+        out.append(Scenario(st, name="idless-refusals-%s" % tr))
+    return out
+
+
+def fetcher_table_churn():
+    """more fetches on one element than its first fetcher table holds, from several peers; some unfetch, one peer leaves, the
+    rest must keep following the element through change, remove and re-add (the table may grow, be compacted or shrink)"""
+    out = []
+    for nf in (5, 6, 9):
+        for tr in ("raw", "ws"):
+            st = [("connect", 0, "raw", "local6")] + [("connect", 1 + i, tr if i % 2 else "raw", "remote6") for i in range(nf)]
+            st.append(("msg", 0, obj(method="add", params=obj(path="e", value=0), id=1)))
+            for i in range(nf):
+                st.append(("msg", 1 + i, obj(method="fetch", params=obj(id="f%d" % i, path=obj(startsWith="e")), id=1)))
+            st += [("msg", 1, obj(method="unfetch", params=obj(id="f0"), id=2)),
+                   ("msg", 2, obj(method="unfetch", params=obj(id="f1"), id=2)),
+                   ("eof", 3), ("quiesce",),
+                   ("msg", 0, obj(method="change", params=obj(path="e", value=1), id=2))]
+            for i in range(3, nf - 1):
+                st.append(("msg", 1 + i, obj(method="unfetch", params=obj(id="f%d" % i), id=3)))
+            st += [("msg", 0, obj(method="change", params=obj(path="e", value=2), id=3)),
+                   ("msg", 0, obj(method="remove", params=obj(path="e"), id=4)),
+                   ("msg", 0, obj(method="add", params=obj(path="e", value=3), id=5)),
+                   ("msg", 1, obj(method="fetch", params=obj(id="again", path=obj(equals="e")), id=4)),
+                   ("msg", 0, obj(method="change", params=obj(path="e", value=4), id=6)),
+                   ("quiesce",)] + [("eof", 1 + i) for i in range(nf) if i != 2] + [("eof", 0), ("quiesce",)]
+            out.append(Scenario(st, name="fetcher-table-churn-%d-%s" % (nf, tr)))
+    return out
